@@ -20,6 +20,7 @@ VARIABLES tr, i,
           evals, firstEvalT, pendingV,
           progS, progF,
           cancelT, timeoutSeen, retSeen, ret,
+          stageBeginT,      \* when the current file stage began
           banner,           \* what the summary said ("passed" | "failed"; "" = no summary seen)
           lastCleanT,       \* when a worker last became free (an iteration's cleanups finished); -1: never
           ninv,             \* light runs: number of invocations of the iteration function, counted by the harness (-1: not told)
@@ -32,7 +33,7 @@ VARIABLES tr, i,
           why
 vars == <<tr, i, setupSeen, ids, liveIds, liveH, endedIds, cleaned, succT, failT, sumTicks, lateSum, dropSum,
           stopSeen, limitSeen, evals, firstEvalT, pendingV, progS, progF, cancelT, timeoutSeen, retSeen, ret,
-          mS, mF, mD, mSetup, mSetupRes, labelsBad, stageCur, stageOpen, setupCleanupSeen, rvOK, lmax, skipped, preCancelled, ninv, dupSeen, lastCleanT, banner, why>>
+          mS, mF, mD, mSetup, mSetupRes, labelsBad, stageCur, stageOpen, setupCleanupSeen, rvOK, lmax, skipped, preCancelled, ninv, dupSeen, lastCleanT, banner, stageBeginT, why>>
 
 Cfg == T[tr].cfg
 Min(a, b) == IF a < b THEN a ELSE b
@@ -56,7 +57,7 @@ Init == /\ tr \in 1..Len(T) /\ i = 0
         /\ ret = [s |-> 0, f |-> 0, d |-> 0, t |-> 0]
         /\ mS = 0 /\ mF = 0 /\ mD = 0 /\ mSetup = 0 /\ mSetupRes = "" /\ labelsBad = FALSE
         /\ stageCur = 0 /\ stageOpen = FALSE /\ setupCleanupSeen = FALSE /\ rvOK = FALSE /\ lmax = 0 /\ skipped = 0
-        /\ preCancelled = FALSE /\ ninv = -1 /\ dupSeen = FALSE /\ lastCleanT = -1 /\ banner = ""
+        /\ preCancelled = FALSE /\ ninv = -1 /\ dupSeen = FALSE /\ lastCleanT = -1 /\ banner = "" /\ stageBeginT = -1
         /\ why = IF T[tr].err = "" THEN {} ELSE {F("MACHINERY", T[tr].err)}
 
 Unch(vs) == UNCHANGED vs
@@ -279,6 +280,7 @@ Return(e) ==
             <<Cfg.mode # "file" \/ cancelT >= 0 \/ Cfg.maxiter > 0 \/ setupSeen # 1 \/ Cfg.trigdur_us > Cfg.maxdur_us
                   \/ Cfg.file_stages = 0 \/ stageCur = Cfg.file_stages, "C15", "not-every-stage-of-the-plan-was-executed">>,
             <<~Cfg.setup_fail \/ e.s # "", "C06", "failed-setup-did-not-fail-the-run">>,
+            <<~Cfg.teardown_fail \/ e.s # "", "C06", "failed-setup-cleanup-did-not-fail-the-run">>,
             \* the summary was rendered from this result: its banner is this verdict (b2 = passed | failed)
             <<banner = "" \/ e.b2 = "" \/ banner = e.b2, "C19", "summary-banner-differs-from-the-verdict">>,
             <<Cfg.pool_only \/ setupCleanupSeen, "C06", "setup-cleanup-missing-at-return">>,
@@ -329,6 +331,8 @@ After(e) ==
           \* as many samples as iterations, but some under the other outcome
           <<mS + mF # ret.s + ret.f \/ mF = ret.f, "C07", "exported-metric-reports-iterations-under-the-wrong-outcome">>,
           <<dropSum = ret.d, "C01", "iterations-reported-dropped-after-the-final-result">>,
+          \* no completion timeout: whatever was executed - also what ended only after the return - is in the final result
+          <<Cfg.light \/ timeoutSeen \/ dupSeen \/ ret.s + ret.f = succT + failT, "C01", "executed-iterations-missing-from-the-final-result">>,
           <<mSetup = 1, "C16", "setup-metric-not-exactly-one-sample">>,
           <<(setupSeen = 1) = (mSetupRes = "success"), "C16", "setup-metric-labelled-with-wrong-outcome">>,
           <<progS = ret.s /\ progF = ret.f, "C19", "summary-counts-differ-from-result">> >>)
@@ -345,7 +349,11 @@ Stage(e) ==
           \* d = microseconds since the FIRST stage began; the trigger deadline runs from before that moment, and the
           \* stage loop tests its context right before a stage begins: a stage that begins 100 ms past the deadline
           \* was started on a dead context (100 ms: far beyond any lateness of the deadline timer)
-          <<e.b = 0 \/ e.d <= Deadline + 100000, "C05", "stage-begun-after-triggering-had-stopped">> >>)
+          <<e.b = 0 \/ e.d <= Deadline + 100000, "C05", "stage-begun-after-triggering-had-stopped">>,
+          \* a stage that nobody cut short (no cancellation, no limit reached, the deadline still ahead) lasts its configured
+          \* duration (e, microseconds; the stage loop ends it 20 ms early and sleeps those 20 ms before the next one)
+          <<e.b = 1 \/ stageBeginT < 0 \/ cancelT >= 0 \/ limitSeen \/ Cfg.maxiter > 0 \/ e.d + 50000 >= Deadline
+                \/ e.c - stageBeginT + 30000 >= e.e, "C15", "stage-ended-before-its-duration">> >>)
     /\ stageCur' = e.a /\ stageOpen' = (e.b = 1)
     /\ stopSeen' = IF e.b = 1 THEN FALSE ELSE stopSeen
     /\ Unch(<<lmax, skipped, setupSeen, ids, liveIds, liveH, endedIds, cleaned, succT, failT, sumTicks, lateSum, dropSum, limitSeen, evals,
@@ -387,6 +395,7 @@ Next == /\ i < Len(T[tr].ev)
         \* set by the one event that changes it; every other event leaves it
         /\ preCancelled' = IF T[tr].ev[i + 1].k = "cancelret" THEN (setupSeen = -1) ELSE preCancelled
         /\ ninv' = IF T[tr].ev[i + 1].k = "invocations" THEN T[tr].ev[i + 1].a ELSE ninv
+        /\ stageBeginT' = IF T[tr].ev[i + 1].k = "stage" /\ T[tr].ev[i + 1].b = 1 THEN T[tr].ev[i + 1].c ELSE stageBeginT
         /\ banner' = IF T[tr].ev[i + 1].k = "summary" THEN T[tr].ev[i + 1].s ELSE banner
         /\ lastCleanT' = IF T[tr].ev[i + 1].k = "cleanup" THEN T[tr].ev[i + 1].c ELSE lastCleanT
         /\ dupSeen' = (dupSeen \/ (T[tr].ev[i + 1].k = "start" /\ T[tr].ev[i + 1].a \in ids)
